@@ -61,6 +61,10 @@ type vRelay struct {
 	// all stream ids presented so far that are not sid / sid^1 get their own pair
 	alt     *vRelay
 	creates int
+	// refuseOpt: after a restart the relay may still be unreachable for the
+	// first re-dial (symbolic choice): that stream creation is refused
+	refuseOpt bool
+	refuse    int
 }
 
 func newRelay(sid [64]byte, budget int) *vRelay {
@@ -74,6 +78,20 @@ func (r *vRelay) restart() {
 	defer r.mu.Unlock()
 	close(r.restartCh)
 	r.restartCh = make(chan struct{})
+	if r.refuseOpt && vIntRange("relay_refuses_first_redial", 0, 1) == 1 {
+		r.refuse = 1
+	}
+}
+
+// refused: a stream creation right after a restart is refused once.
+func (r *vRelay) refused() bool {
+	r.mu.Lock()
+	defer r.mu.Unlock()
+	if r.refuse > 0 {
+		r.refuse--
+		return true
+	}
+	return false
 }
 
 func (r *vRelay) epoch() chan struct{} {
@@ -140,10 +158,16 @@ func (r *vRelay) DelCipherBox(ctx context.Context, in *hashmailrpc.CipherBoxAuth
 }
 
 func (r *vRelay) SendStream(ctx context.Context, opts ...grpc.CallOption) (hashmailrpc.HashMail_SendStreamClient, error) {
+	if r.refused() {
+		return nil, vErrStream
+	}
 	return &vSendStream{r: r, ctx: ctx, epoch: r.epoch()}, nil
 }
 
 func (r *vRelay) RecvStream(ctx context.Context, in *hashmailrpc.CipherBoxDesc, opts ...grpc.CallOption) (hashmailrpc.HashMail_RecvStreamClient, error) {
+	if r.refused() {
+		return nil, vErrStream
+	}
 	return &vRecvStream{r: r, ctx: ctx, box: r.box(in.StreamId), epoch: r.epoch()}, nil
 }
 
